@@ -126,7 +126,26 @@ class WrappedDispatcher:
         read_callback: Callable,
         check_callback: Callable,
     ) -> None:
-        self.dispatcher.read(sock, read_callback)
+        def drain() -> bool:
+            # the external loop sees the descriptor only: frames already
+            # decrypted inside an SSL socket must be asked for here
+            keep = read_callback()
+            while keep and self.app.sock and self.app.sock.sock:
+                pending = getattr(self.app.sock.sock, "pending", None)
+                if pending is None or not pending():
+                    break
+                keep = read_callback()
+            return keep
+
+        def kick() -> bool:
+            # frames that arrived in the TLS record of the handshake response
+            pending = getattr(sock, "pending", None)
+            if pending is not None and pending() and self.app.sock:
+                drain()
+            return False
+
+        self.dispatcher.read(sock, drain)
+        self.timeout(0, kick)
         if self.ping_timeout:
 
             def check() -> bool:
